@@ -45,7 +45,7 @@ CLAIMED = {
             "Trusted: Python's tuple hashing maps equal tuples to equal values. Bounds: Time a over 9 presence masks (quick) / all 128 (thorough) x Time b over all 128; years 0..9999; Duration amounts 0..10^4. Printed-form injectivity/round trip: see STR obligations when present.",
             "§5 C18"),
     "C13": ("CrossHair/z3 over the expiry index of a stub clock: every point between two consecutive clock reads of the real parser (real rule base) on fixed texts; the parser runs untraced, the solver covers all k",
-            "Trusted: the parser reads time only through ctparse.timers.perf_counter; CrossHair's NoTracing semantics. Bounds: texts 'tomorrow 8pm', '9 9', '9 9 9' (quick) + 'mon 8', '9', '9 9 9 9' (thorough); constant scorer; integer clock ticks for timers.timeout.",
+            "Trusted: the parser reads time only through ctparse.timers.perf_counter; CrossHair's NoTracing semantics. Bounds: texts 'tomorrow 8pm', '9 9', '9 9 9' (quick) + 'mon 8', '9', 'mon 8 9', 'heute 9 uhr 30' (thorough; '9 9 9 9' with 3233 clock reads x 2 runs per path was measured at > 15 CPU-minutes per 60-read chunk and dropped); constant scorer; integer clock ticks for timers.timeout.",
             "§5 C13"),
     "C09": ("z3 regular-expression theory on translations of the 41 live rule patterns (token lemmas, unbounded strings) + CrossHair on RegexMatch span trimming + API-level differential over symbolic pool indices",
             "Trusted: regex engine contract; \\w modelled up to U+024F; translator validated against every real match on corpus texts on each run. Bounds: EMBED pools 12 expressions x 0..2 inert words each side (2 words quick / 3 thorough).",
